@@ -143,11 +143,18 @@ def coq_makefile():
             raise RuntimeError("coq_makefile failed: " + out)
 
 
-def coq_make(targets, timeout=3000):
-    """Full .vo build of the given targets (paths relative to coq/).  Returns (ok, log)."""
+def coq_make(targets, timeout=1500):
+    """Full .vo build of the given targets (paths relative to coq/).  Returns (ok, log).
+    Only the (short) regeneration of _CoqProject / Makefile / .Makefile.d is serialised by a lock; the
+    compilation itself runs unlocked so that one slow proof cannot stall every other check.  Two concurrent
+    makes that both need the same out-of-date dependency may compile it twice; make's timestamps sort that out."""
     os.makedirs(os.path.join(BUILD, "extracted"), exist_ok=True)
     with Lock("coq"):
         coq_makefile()
+        rc0, out0 = sh(["make", "-f", "Makefile", ".Makefile.d"], cwd=COQ, timeout=300)
+    if not targets:
+        rc, out = sh(["make", "-j%d" % NCPU], cwd=COQ, timeout=timeout)
+    else:
         rc, out = sh(["make", "-j%d" % NCPU] + list(targets), cwd=COQ, timeout=timeout)
     return rc == 0, out
 
